@@ -34,12 +34,12 @@ theorem lpOk_snoc (pre : List Char) (lp : List Nat) (c : Char) (h : LpOk pre lp)
       List.length_nil]
     constructor
     · simp [h1]
-    · simp [List.takeWhile_cons]
+    · simp
   · simp only [hc, if_false, LpOk, List.count_append, List.reverse_append, List.reverse_cons,
       List.reverse_nil, List.nil_append, List.cons_append, List.length_append, List.length_cons,
       List.length_nil]
     constructor
-    · simp [h1, List.count_cons, hc]
+    · simp [h1, hc]
     · have : (c != '\n') = true := by simp [hc]
       simp only [List.takeWhile_cons, this, if_true, List.length_cons]
       omega
@@ -75,6 +75,7 @@ inductive Run (upper : String → String) (src : List Char) : List Char → List
   | tok (pre ws lexeme rest : List Char) (t : Token) (ts : List Token) (es : List LexErr)
       (hws : ∀ c ∈ ws, isBlank c) (hsrc : src = pre ++ ws ++ lexeme ++ rest) (hne : lexeme ≠ [])
       (ht : TokFacts upper (pre ++ ws).length (recNl 0 [] (pre ++ ws)) lexeme t)
+      (hext : t.extent = specExtent (lexeme ++ rest) t.value)
       (hrun : Run upper src (pre ++ ws ++ lexeme) ts es) : Run upper src pre (t :: ts) es
   | err (pre ws : List Char) (c : Char) (rest : List Char) (e : LexErr) (ts : List Token) (es : List LexErr)
       (hws : ∀ c ∈ ws, isBlank c) (hsrc : src = pre ++ ws ++ [c] ++ rest) (hc : ¬ isBlank c)
@@ -124,7 +125,9 @@ theorem lexLoop_run (upper : String → String) (src : List Char) :
         simp only
         have ht := ok.tok t hitem
         rw [hoff, hlp] at ht
-        exact Run.tok pre ws lexeme st.rest t _ _ h2 hsrc' ok.nonempty ht hrun
+        have hext := ok.ext_spec t hitem
+        rw [ok.decomp] at hext
+        exact Run.tok pre ws lexeme st.rest t _ _ h2 hsrc' ok.nonempty ht hext hrun
       | inr e =>
         simp only
         obtain ⟨hl1, he⟩ := ok.err e hitem
